@@ -57,17 +57,6 @@ def _d19b(case, observed, finding):
                 and observed.get('op', [None])[0] in READ_OPS)
 
 
-def _d19d(case, observed, finding):
-    """D19d: iter_pieces() hit by a SEEK fault let the raw OSError escape, and the model derives exactly that (the
-    seek of _iter_from_file_handle stands before its try block)"""
-    return bool(isinstance(observed, dict) and case.get('dyn')
-                and observed.get('observed') == ['err', 'OSError']
-                and observed.get('model_answer') == ['err', 'OSError']
-                and observed.get('fault_fired')
-                and observed.get('op', [None])[0] in ('iterFull', 'iterAbandon')
-                and op_dec(observed['op']).get('fault', [None, None])[1] == 'seek')
-
-
 def _d19e(case, observed, finding):
     """D19e: an indexed read tripped get_piece()'s length assertion, and the model derives exactly that from its table
     and disk: the object holds a STALE handle (the row is not clean) — an earlier step replaced or removed the file —
@@ -82,7 +71,6 @@ def _d19e(case, observed, finding):
 
 
 MATCHERS = {'stale_read_ahead_after_inplace_rewrite': _d19b,
-            'oserror_from_seek_fault_in_iter_pieces': _d19d,
             'assertion_error_from_stale_handle_of_other_size': _d19e}
 
 DOCUMENTED = ('ValueError', 'ReadError', 'VerifyFileSizeError')
@@ -154,6 +142,7 @@ def _item(p, exc, index_of, fp=None):
 
 
 _PEAK = [0]
+_LAST_EXC = [None]
 
 
 def _counting_open(top):
@@ -217,6 +206,7 @@ def _do_op1(tfs, op, top, index_of, cp=None):
             raise RuntimeError(f'unknown op {name}')
     except Exception as e:  # noqa  (error KIND is the observable)
         res = ('err', _kind(e))
+        _LAST_EXC[0] = e
     return res, peak
 
 
@@ -603,10 +593,17 @@ def _run_chunk_dyn(cases, unbuffered=False):
                 _ARMED.clear()
                 if dec.get('fault'):
                     _ARMED.update(path=paths[eff_root(c, op) * nf + dec['fault'][0]], kind=dec['fault'][1], fired=False)
+                _LAST_EXC[0] = None
                 res, peak = _do_op(tfs, plain, tops, index_of, cp)
                 row = {'res': res, 'nfd': _nfd(tops) - base, 'peak': peak - base}
                 if dec.get('fault'):
                     row['fired'] = bool(_ARMED.get('fired'))
+                    e = _LAST_EXC[0]
+                    if row['fired'] and type(e).__name__ == 'ReadError':
+                        # the ReadError names the file whose seek()/read() failed (file-system path from iter_pieces,
+                        # torrent-relative file from get_piece): compare the listed path inside the content root
+                        row['names_file'] = str(getattr(e, 'path', '')).endswith(os.path.join(*files[dec['fault'][0]]['path']))
+                _LAST_EXC[0] = None
                 _ARMED.clear()
                 if op[0] in READ_OPS:
                     # the property itself: the same operation with the same arguments on a FRESH object, on the torrent
@@ -926,7 +923,7 @@ def with_dec(op, cp=None, fault=None):
 
 def fault_kinds(op):
     """where a transient OSError may strike: the first seek or the first read of a file inside any reading operation
-    (get_piece catches both; the reader of iter_pieces catches the read, its seek stands before the try block: D19d)"""
+    (get_piece and, since ac0b377, the reader of iter_pieces turn both into ReadError)"""
     return ('read', 'seek')
 
 
@@ -1466,10 +1463,11 @@ def evaluate_dyn(ctx, drv, cases):
                                         finding_matchers=MATCHERS)
                     if fid is None:
                         break
-                elif faulted and o.get('fired') and not _same(i, ('err', 'ReadError')):
+                elif faulted and o.get('fired') and (not _same(i, ('err', 'ReadError')) or o.get('names_file') is False):
                     # (whether the operation gets to the faulty seek/read at all is part of the model's answer)
-                    ctx.violation(f'step {n} {op}: a transient OSError from seek()/read() must surface as ReadError',
-                                  case, {**where, 'expected': ['err', 'ReadError']}, {**where, 'observed': _short(i)},
+                    ctx.violation(f'step {n} {op}: a transient OSError from seek()/read() must surface as ReadError naming the file',
+                                  case, {**where, 'expected': ['err', 'ReadError'], 'names_the_file': True},
+                                  {**where, 'observed': _short(i), 'names_the_file': o.get('names_file')},
                                   finding_matchers=MATCHERS)
                     break
                 # (b)/(c) the used object: the specification when it holds no stale handle it reads, else the model
